@@ -50,11 +50,6 @@ theorem deflate1_ok_iff (pre : List α) (cs : List (List α)) (s : Nat) (f : Lis
       simpa [badLen] using this
     · intro ⟨_, hf⟩; exact hf.symm
 
-/-- End offsets produced for a list of coordinate lists starting at `off`. -/
-def endsOf (off : Nat) : List (List (List α)) → List Nat
-  | [] => []
-  | cs :: rest => (off + cs.flatten.length) :: endsOf (off + cs.flatten.length) rest
-
 theorem deflate2_eq (pre : List α) (ends : List Nat) (css : List (List (List α))) (s : Nat) :
     deflate2 pre ends css s =
       match css.flatten.find? (badLen s) with
@@ -71,10 +66,6 @@ theorem deflate2_eq (pre : List α) (ends : List Nat) (css : List (List (List α
       cases h2 : rest.flatten.find? (badLen s) with
       | some c => simp
       | none => simp [endsOf, List.append_assoc]
-
-def endssOf (off : Nat) : List (List (List (List α))) → List (List Nat)
-  | [] => []
-  | css :: rest => endsOf off css :: endssOf (off + css.flatten.flatten.length) rest
 
 theorem deflate3_eq (pre : List α) (endss : List (List Nat))
     (csss : List (List (List (List α)))) (s : Nat) :
@@ -211,16 +202,6 @@ theorem inflate3_ok (a b : List α) (csss : List (List (List (List α)))) (s : N
       rw [this]; rfl
 
 /-! ## MultiPoint -/
-
-def somes : List (Option (List α)) → List (List α)
-  | [] => []
-  | none :: r => somes r
-  | some c :: r => c :: somes r
-
-def mpEndsOf (off : Nat) : List (Option (List α)) → List Nat
-  | [] => []
-  | none :: r => off :: mpEndsOf off r
-  | some c :: r => (off + c.length) :: mpEndsOf (off + c.length) r
 
 theorem mpSetLoop_eq (s : Nat) (flat : List α) (ends : List Nat) (cs : List (Option (List α))) :
     MPoint.setLoop s flat ends cs =
